@@ -8,6 +8,8 @@ from .zoo import ZooInfo
 
 
 def _psize(f) -> int:
+    if f["pool"] == "picky":
+        return 2        # the third value makes the class's own __post_init__ raise (used by the failure actions only)
     return len(_P.POOLSETS["plain"][f["pool"]])
 
 
